@@ -25,7 +25,7 @@ func boxCmd(args []string) int {
 	setKnown(*kn)
 	e := NewEmitter(*outp+".ops", *outp+".exp")
 	st := NewStats("box", *seed)
-	st.Rule = "messages of length 0..200 (every length up to 100, then around multiples of 32/64) under random keys: the real encrypt is compared with the Lean secretbox model given the same nonce (`box seal`), the hand-rolled legacy seal with the Lean legacy model (`box legacyseal`), and decrypt with the Lean decrypt (`box open`) on the genuine ciphertext, on EVERY single-bit flip and EVERY truncation of short messages and sampled ones of longer messages, and under a wrong key; oracles on the implementation: decrypt(encrypt m) = m, equal plaintext gives equal ciphertext, every modification is an error, the ciphertext does not contain the plaintext; distinct = distinct (length, kind of modification)"
+	st.Rule = "messages of length 0..200 (every length up to 100, then around multiples of 32/64) under random keys: the real encrypt is compared with the Lean secretbox model given the same nonce (`box seal`), the hand-rolled legacy seal with the Lean legacy model (`box legacyseal`), and decrypt with the Lean decrypt (`box open`) on the genuine ciphertext, on EVERY single-bit flip and EVERY truncation of short messages and sampled ones of longer messages, and under a wrong key; oracles on the implementation: decrypt(encrypt m) = m, equal plaintext gives equal ciphertext, every modification is an error, the ciphertext does not contain the plaintext; every third message also goes through the passphrase path: V1NodeEncryptor built twice from the same slice and once from a copy agree and read each other's data, leave the passphrase unmodified, and five different passphrases (all-zero of the same length, extended, empty, one bit flipped, shortened) are refused; distinct = distinct (length, kind of modification)"
 	r := gen.New(*seed)
 	e.Case(fmt.Sprintf("box-%d", *seed))
 	hx := hex.EncodeToString
@@ -153,6 +153,55 @@ func boxCmd(args []string) int {
 			}
 		} else {
 			st.Count("legacy_readable")
+		}
+		// the passphrase path (V1NodeEncryptor / deriveKey): building an encryptor leaves the caller's passphrase
+		// alone, the same passphrase always gives the same key, a different one is refused
+		if i%3 == 0 {
+			pass := make([]byte, r.Intn(41))
+			for j := range pass {
+				pass[j] = byte(r.U64())
+			}
+			orig := append([]byte(nil), pass...)
+			e1 := kv.V1NodeEncryptor(pass)
+			if !bytes.Equal(pass, orig) {
+				st.Fail(fmt.Sprintf("passphrase len %d", len(pass)), "V1NodeEncryptor modified the caller's passphrase", []string{hx(orig), hx(pass)})
+				copy(pass, orig)
+			}
+			e2 := kv.V1NodeEncryptor(pass) // the same slice again
+			e3 := kv.V1NodeEncryptor(append([]byte(nil), orig...))
+			pc1, err1 := e1.Encrypt("x", m)
+			pc2, _ := e2.Encrypt("x", m)
+			pc3, _ := e3.Encrypt("x", m)
+			st.Count("passphrase_cases")
+			if err1 != nil || !bytes.Equal(pc1, pc2) || !bytes.Equal(pc1, pc3) {
+				st.Fail(fmt.Sprintf("passphrase len %d", len(orig)), fmt.Sprintf("encryptors built from the same passphrase give different ciphertext (err %v)", err1), []string{hx(orig), hx(m)})
+			}
+			for n, ex := range []kv.Encryptor{e1, e2, e3} {
+				if back, err := ex.Decrypt("x", pc1); err != nil || !bytes.Equal(back, m) {
+					st.Fail(fmt.Sprintf("passphrase len %d", len(orig)), fmt.Sprintf("encryptor %d built from the same passphrase cannot read the data: %v", n+1, err), []string{hx(orig), hx(m)})
+				}
+			}
+			others := [][]byte{make([]byte, len(orig)), append(append([]byte(nil), orig...), 0), nil}
+			if len(orig) > 0 {
+				fl := append([]byte(nil), orig...)
+				fl[r.Intn(len(fl))] ^= 1 << r.Intn(8)
+				others = append(others, fl, orig[:len(orig)-1])
+			}
+			for _, o := range others {
+				if bytes.Equal(o, orig) {
+					continue
+				}
+				if back, err := kv.V1NodeEncryptor(o).Decrypt("x", pc2); err == nil {
+					st.Fail(fmt.Sprintf("passphrase len %d", len(orig)), "a different passphrase reads the data", []string{hx(orig), hx(o), hx(back)})
+				}
+			}
+			// deriveKey with a context: master and context are left alone too, and the context matters
+			ctxb := []byte("ctx")
+			k1 := kv.VerifDeriveKey(pass, ctxb)
+			k2 := kv.VerifDeriveKey(pass, ctxb)
+			if !bytes.Equal(pass, orig) || string(ctxb) != "ctx" || !bytes.Equal(k1, k2) || len(k1) != 32 {
+				st.Fail(fmt.Sprintf("passphrase len %d", len(orig)), "deriveKey is not a function of its arguments (or modifies them)", []string{hx(orig)})
+			}
 		}
 		// sanity of the reference library itself
 		var nn [24]byte
